@@ -1032,3 +1032,100 @@ func ruleC13RecordLocks(c *Ctx) {
 		c.PassTrivial("c13.record-locks", "module", "-", "no goroutine-reachable function stores to a field of a mutex-carrying record (the parallel executors keep their shared state in captured variables: c13.captured-vars)")
 	}
 }
+
+func init() { register("C13", ruleC13ParallelEvaluators); register("C10", ruleC13ParallelEvaluators) }
+
+// ruleC13ParallelEvaluators: what the guard admits must really be free of query state.
+func ruleC13ParallelEvaluators(c *Ctx) {
+	c.Doc("c13.parallel-evaluators", "the other half of c13.parallel-guard: the evaluators of the node kinds isParallelSafe admits (comparison, AND, OR — every module function taking one of these nodes) and everything they call short of re-entering the expression dispatcher write no field of the shared *Query and no map or slice held in one (a memo of compiled patterns, a counter, a post-processor): they run on one goroutine per key of a PARALLEL join without a lock")
+	disp := c.P.Func(modPath, "Expr")
+	var roots []*ssa.Function
+	for _, t := range []string{"*sqlparser.ComparisonExpr", "*sqlparser.AndExpr", "*sqlparser.OrExpr"} {
+		for _, f := range c.P.funcsWithParam(t) {
+			if paramOfType(f, "*Query") != nil {
+				roots = append(roots, f)
+			}
+		}
+	}
+	if disp == nil || len(roots) < 3 {
+		c.Unknown("c13.parallel-evaluators", "evaluators", "-", fmt.Sprintf("anchor lost: dispatcher=%v, evaluators of comparison/AND/OR taking the query=%d", disp != nil, len(roots)))
+		return
+	}
+	isQueryField := func(v ssa.Value) (string, bool) {
+		fa, ok := v.(*ssa.FieldAddr)
+		if !ok || !isNamedType(fa.X.Type(), modPath, "Query") {
+			return "", false
+		}
+		return fieldName(fa.X.Type(), fa.Field), true
+	}
+	heldInQuery := func(v ssa.Value) (string, bool) {
+		for i := 0; i < 6; i++ {
+			switch x := v.(type) {
+			case *ssa.UnOp:
+				if n, ok := isQueryField(x.X); ok && x.Op == token.MUL {
+					return n, true
+				}
+				return "", false
+			case *ssa.Slice:
+				v = x.X
+			case *ssa.IndexAddr:
+				v = x.X
+			case *ssa.ChangeType:
+				v = x.X
+			default:
+				return "", false
+			}
+		}
+		return "", false
+	}
+	seen := map[*ssa.Function]bool{}
+	var work []*ssa.Function
+	push := func(f *ssa.Function) {
+		if f != nil && !seen[f] && c.P.InModule(f) && f.Blocks != nil {
+			seen[f] = true
+			work = append(work, f)
+		}
+	}
+	for _, r := range roots {
+		push(r)
+	}
+	var why []string
+	scan := func(f *ssa.Function, follow bool) {
+		c.Fn(c.P.funcKey(f))
+		allInstrs(f, func(_ *ssa.BasicBlock, in ssa.Instruction) {
+			switch x := in.(type) {
+			case *ssa.Store:
+				if n, ok := isQueryField(x.Addr); ok {
+					why = append(why, fmt.Sprintf("%s assigns Query.%s at %s", c.P.funcKey(f), n, c.P.Pos(x.Pos())))
+				} else if ia, isIA := x.Addr.(*ssa.IndexAddr); isIA {
+					if n, ok := heldInQuery(ia.X); ok {
+						why = append(why, fmt.Sprintf("%s writes an element of Query.%s at %s", c.P.funcKey(f), n, c.P.Pos(x.Pos())))
+					}
+				}
+			case *ssa.MapUpdate:
+				if n, ok := heldInQuery(x.Map); ok {
+					why = append(why, fmt.Sprintf("%s writes the map Query.%s at %s", c.P.funcKey(f), n, c.P.Pos(x.Pos())))
+				}
+			case *ssa.MakeClosure:
+				if follow {
+					push(x.Fn.(*ssa.Function))
+				}
+			case ssa.CallInstruction:
+				if !follow {
+					return
+				}
+				if sc := x.Common().StaticCallee(); sc != nil && sc != disp {
+					push(sc)
+				}
+			}
+		})
+	}
+	for len(work) > 0 {
+		f := work[0]
+		work = work[1:]
+		scan(f, true)
+	}
+	// the dispatcher's own body (its arms for column references and literals), without following it further
+	scan(disp, false)
+	c.Check(len(why) == 0, "c13.parallel-evaluators", "comparison/AND/OR", c.P.Pos(roots[0].Pos()), fmt.Sprintf("%d functions reachable from the admitted evaluators write no query state", len(seen)), strings.Join(uniq(why), "; ")+": evaluated from one goroutine per key by the PARALLEL join, unsynchronised (fatal error: concurrent map writes, or a lost update)")
+}
